@@ -80,14 +80,13 @@ impl Admin {
     { unimplemented!() }
 }
 
-// fund/src/querier.rs (thin query wrappers, not extracted)
-pub uninterp spec fn q_engine_decimals(q: QuerierWrapper, engine: Seq<char>) -> Uint128;
-pub uninterp spec fn q_vamm_decimals(q: QuerierWrapper, vamm: Seq<char>) -> Uint128;
-#[verifier::external_body]
-pub fn query_engine_decimals(deps: &Deps, contract: String) -> (r: StdResult<Uint128>)
-    ensures r is Ok ==> r->Ok_0 == q_engine_decimals(deps.querier, contract@),
-{ unimplemented!() }
-#[verifier::external_body]
-pub fn query_vamm_decimals(deps: &Deps, contract: String) -> (r: StdResult<Uint128>)
-    ensures r is Ok ==> r->Ok_0 == q_vamm_decimals(deps.querier, contract@),
-{ unimplemented!() }
+// fund/src/querier.rs wrappers are extracted (specs/fund.vrs) against QuerierWrapper::query
+pub open spec fn q_engine_decimals(q: QuerierWrapper, engine: Seq<char>) -> Uint128 {
+    query_answer::<EngineConfigResponse>(q, QueryView::Smart { addr: engine, payload: Payload::EngineQConfig }).decimals
+}
+pub open spec fn q_vamm_decimals(q: QuerierWrapper, vamm: Seq<char>) -> Uint128 {
+    query_answer::<VammConfigResponse>(q, QueryView::Smart { addr: vamm, payload: Payload::VammQConfig }).decimals
+}
+pub open spec fn q_vamm_open(q: QuerierWrapper, vamm: Seq<char>) -> bool {
+    query_answer::<StateResponse>(q, QueryView::Smart { addr: vamm, payload: Payload::VammQState }).open
+}
